@@ -211,6 +211,12 @@ pub fn fam_bounds(o: &mut Rep, seed: u64) {
         bounds_ops(o, seed, &rv_kit(&sp, &mut g, " bounded"), &same_rv, bounded);
     }
     let sp = RealVectorStateSpace::new(3, None).unwrap(); bounds_ops(o, seed, &rv_kit(&sp, &mut g, " unbounded"), &same_rv, false);
+    // `bounds` is a public field: a caller may narrow / move the box after construction; every operation follows the CURRENT bounds
+    {
+        let mut sp = RealVectorStateSpace::new(2, Some(vec![(0.0, 10.0), (-5.0, 5.0)])).unwrap();
+        sp.bounds = vec![(2.0, 3.0), (100.0, 101.0)];
+        bounds_ops(o, seed, &rv_kit(&sp, &mut g, " bounds edited after construction"), &same_rv, true);
+    }
     let same_so2 = |a: &SO2State, b: &SO2State| a.value.to_bits() == b.value.to_bits();
     for b in [None, Some((-1.0, 0.1)), Some((-PI, PI)), Some((0.5, 3.0)), Some((-3.0, -2.9)), Some((-PI, 0.0)), Some((0.0, PI)), Some((-10.0, 1.0)), Some((2.0, 10.0)), Some((3.0, PI))] {
         let sp = SO2StateSpace::new(b).unwrap();
